@@ -58,6 +58,9 @@ size_t splinetable<Alloc>::estimateMemory(const std::string& filePath,
 	std::vector<uint32_t> order = readOrder(fits,dim);
 	order[convolution_dimension] += n_convolution_knots-1;
 	
+	//the auxiliary keys live in the primary header, so count them before moving on
+	uint32_t naux = countAuxKeywords(fits);
+	
 	size_t size = sizeof(splinetable<Alloc>); //main object
 	
 	//count knots
@@ -91,9 +94,10 @@ size_t splinetable<Alloc>::estimateMemory(const std::string& filePath,
 	size += dim*sizeof(uint64_t); //naxes
 	size += dim*sizeof(uint64_t); //strides
 	
-	uint32_t naux = countAuxKeywords(fits);
 	//pessimistically assume all keys and values are maximal length
 	size += naux*(FLEN_KEYWORD+FLEN_VALUE)*sizeof(char);
+	//each entry also needs its pair of pointers and a slot in the table of entries
+	size += naux*(2*sizeof(char_ptr)+sizeof(char_ptr_ptr));
 	
 	const size_t KB=1ULL<<10;
 	//round up to the nearest KB, and add one more,
